@@ -1,7 +1,974 @@
-//! C14 — stub (monitor not built yet)
-use crate::run::{Ctx, Report, Stats};
-pub fn run(_ctx: &Ctx) -> Report {
-    let mut r = Report::new(Stats::default(), "not built");
-    r.inconclusive.push("monitor-not-built".into());
-    r
+//! C14 — complex functions match their definitions, invert correctly, use principal branches.
+//!
+//! Oracles (all judged on the real `Complex<f64>` methods):
+//!  * reference values in double-double (DD, ~1e-31) from *definitions*: exp by Taylor series with
+//!    scaling/squaring, sin/cos/sinh/cosh from the complex exponential, ln = ln|z| + i atan2 (DD Newton),
+//!    inverse functions from the DLMF principal-value closed forms evaluated in DD (where the textbook
+//!    cancellation costs 1e6 of 1e-31 and is harmless), each reference self-checked in DD by F(ref)=z;
+//!  * real-axis reduction against the real libm functions (independent of the DD code);
+//!  * right inverse F(F^-1(z)) = z through the library's own forward function;
+//!  * principal ranges; reciprocal / Pythagorean identities; z^w = exp(w ln z); polar round trip.
+//! Envelopes are condition-aware: they are first-order rounding models of the formula the library
+//! actually evaluates (sizes of the intermediates taken from the DD evaluation, never from the library
+//! output), times a fixed head-room constant.
+use crate::fl::{hexf, CDD, DD, U};
+use crate::json::J;
+use crate::mon::common::*;
+use crate::rng::Rng;
+use crate::run::{catch, par_run, Ctx, Outcome, Report, Stats};
+use ohsl::{Cmplx, Signed};
+use std::sync::OnceLock;
+
+const TAG: u64 = 0xC14;
+
+// ------------------------------------------------------------------------------------------------
+// fixed tolerances (see final report / "maxima" in the output for the measured worst ratios)
+// ------------------------------------------------------------------------------------------------
+// Measured on the unchanged tree (thorough, seed 1, 5.1e6 points; see "maxima" in the output):
+//   forward functions: worst |lib-ref| = 8.3 u|ref| (cot; tan 7.2, tanh 6.9, sin 3.5, exp 2.5, sqrt 3.0)  -> 4.1e-3 of threshold
+//   inverse functions: worst |lib-ref| = 0.99 u*E (asin/acos/asinh; ln 0.95, acosh 0.94, atan 0.32)       -> 3.9e-3 of threshold
+//   right inverse: <= 2.7e-3 of threshold; pow/powf <= 2.4e-3; log 3.7e-3; polar/abs/arg <= 2e-3;
+//   reciprocal identities 1.5e-3, Pythagorean 6.8e-3; range excess <= 7e-4 of the slack.
+// Every constant therefore leaves >= 147x head-room, while a wrong branch/sign/formula is off by O(1).
+/// forward functions (exp, sin, ..., coth, sqrt, abs, arg, abs_sqr, polar): |lib-ref| <= K_FWD*u*|ref|
+const K_FWD: f64 = 2048.0;
+/// inverse functions: |lib-ref| <= K_INV*u*E where E is the natural-unit rounding model of the kernel
+const K_INV: f64 = 256.0;
+/// pow / powf / log: |lib-ref| <= K_POW*u*cond*|ref|
+const K_POW: f64 = 256.0;
+/// identities between library values (reciprocal, Pythagorean)
+const K_ID: f64 = 256.0;
+/// value checks are only demanded when the absolute envelope is below this (else counted as skipped)
+const ENV_CAP: f64 = 1e-3;
+/// the DD reference must reproduce z through the DD forward function to 2^-85 of the same error model
+const SELF_SCALE: f64 = 2.5849394142282115e-26;
+
+// ------------------------------------------------------------------------------------------------
+// double-double real elementary functions
+// ------------------------------------------------------------------------------------------------
+const PI_DD: DD = DD { hi: 3.141592653589793116e+00, lo: 1.224646799147353207e-16 };
+const PI2_1: f64 = 1.570796326794896558e+00;
+const PI2_2: f64 = 6.123233995736766036e-17;
+const PI2_3: f64 = -1.497384904859169833e-33;
+const LN2_DD: DD = DD { hi: 6.931471805599452862e-01, lo: 2.319046813846299558e-17 };
+
+fn dd(x: f64) -> DD { DD::from(x) }
+fn dmulf(a: DD, b: f64) -> DD { a * DD::from(b) }
+/// exact scaling by a power of two
+fn dscale(a: DD, p: f64) -> DD { DD { hi: a.hi * p, lo: a.lo * p } }
+fn dis_zero(a: DD) -> bool { a.hi == 0.0 && a.lo == 0.0 }
+fn dneg(a: DD) -> bool { a.hi < 0.0 || (a.hi == 0.0 && a.lo < 0.0) }
+
+fn inv_fact() -> &'static [DD; 34] {
+    static T: OnceLock<[DD; 34]> = OnceLock::new();
+    T.get_or_init(|| {
+        let mut t = [DD::ONE; 34];
+        for n in 1..34 { t[n] = t[n - 1] / dd(n as f64); }
+        t
+    })
+}
+
+/// e^x for |x| <= 700
+fn dd_exp(x: DD) -> DD {
+    if !(x.hi.abs() <= 700.0) { return dd(x.hi.exp()); }
+    let k = (x.hi / LN2_DD.hi).round();
+    let r = (x - DD::prod(k, LN2_DD.hi)) - DD::prod(k, LN2_DD.lo);
+    let r = dscale(r, 1.0 / 16.0); // |r| <= 0.0217
+    let f = inv_fact();
+    let mut s = f[14];
+    for n in (0..14).rev() { s = s * r + f[n]; }
+    for _ in 0..4 { s = s * s; }
+    let k = k as i32;
+    let (k1, k2) = (k / 2, k - k / 2);
+    dscale(dscale(s, 2f64.powi(k1)), 2f64.powi(k2))
+}
+
+/// (sin x, cos x) for |x| <= 1e5
+fn dd_sincos(x: DD) -> (DD, DD) {
+    let k = (x.hi / PI2_1).round();
+    let r = ((x - DD::prod(k, PI2_1)) - DD::prod(k, PI2_2)) - DD::prod(k, PI2_3);
+    let r2 = r * r;
+    let f = inv_fact();
+    // sin r = r * sum_j (-1)^j r^{2j}/(2j+1)!   cos r = sum_j (-1)^j r^{2j}/(2j)!   (j <= 15)
+    let coef = |j: usize, odd: bool| { let v = f[2 * j + if odd { 1 } else { 0 }]; if j % 2 == 0 { v } else { -v } };
+    let mut ss = coef(15, true);
+    let mut cs = coef(15, false);
+    for j in (0..15).rev() {
+        ss = ss * r2 + coef(j, true);
+        cs = cs * r2 + coef(j, false);
+    }
+    let s = ss * r;
+    let c = cs;
+    match (k as i64).rem_euclid(4) {
+        0 => (s, c),
+        1 => (c, -s),
+        2 => (-s, -c),
+        _ => (-c, s),
+    }
+}
+
+/// ln a for a > 0 (one Newton step on the DD exponential from the f64 logarithm)
+fn dd_ln(a: DD) -> DD {
+    let x0 = a.hi.ln();
+    let e = dd_exp(dd(-x0));
+    dd(x0) + (a * e - DD::ONE)
+}
+
+/// atan2(y, x) in (-pi, pi]; y == 0 with x < 0 gives +pi
+fn dd_atan2(y: DD, x: DD) -> DD {
+    if dis_zero(y) { return if dneg(x) { PI_DD } else { DD::ZERO }; }
+    let t0 = y.hi.atan2(x.hi);
+    let (s0, c0) = dd_sincos(dd(t0));
+    let r = (x * x + y * y).sqrt();
+    let d = (y * c0 - x * s0) / r; // sin(theta - t0)
+    let d3 = d.hi * d.hi * d.hi / 6.0;
+    dd(t0) + d + dd(d3)
+}
+
+// ------------------------------------------------------------------------------------------------
+// double-double complex functions, from the definitions
+// ------------------------------------------------------------------------------------------------
+fn cdd(re: DD, im: DD) -> CDD { CDD { re, im } }
+const C_ONE: CDD = CDD { re: DD::ONE, im: DD::ZERO };
+fn cscale(a: CDD, p: f64) -> CDD { cdd(dscale(a.re, p), dscale(a.im, p)) }
+fn cconj(a: CDD) -> CDD { cdd(a.re, -a.im) }
+/// i*a (exact)
+fn cmul_i(a: CDD) -> CDD { cdd(-a.im, a.re) }
+fn cabs_dd(a: CDD) -> DD { (a.re * a.re + a.im * a.im).sqrt() }
+fn cfinite(a: CDD) -> bool { a.re.hi.is_finite() && a.im.hi.is_finite() && a.re.lo.is_finite() && a.im.lo.is_finite() }
+
+fn c_exp(z: CDD) -> CDD {
+    let e = dd_exp(z.re);
+    let (s, c) = dd_sincos(z.im);
+    cdd(e * c, e * s)
+}
+/// principal logarithm; a zero imaginary part on the negative axis counts as "above" (Im = +pi)
+fn c_ln(z: CDD) -> CDD {
+    let r2 = z.re * z.re + z.im * z.im;
+    cdd(dscale(dd_ln(r2), 0.5), dd_atan2(z.im, z.re))
+}
+/// principal square root (Re >= 0; negative real axis with zero imaginary part -> +i sqrt|x|)
+fn c_sqrt(z: CDD) -> CDD {
+    if dis_zero(z.re) && dis_zero(z.im) { return CDD::ZERO; }
+    let r = cabs_dd(z);
+    if !dneg(z.re) {
+        let a = dscale(r + z.re, 0.5).sqrt();
+        cdd(a, z.im / dscale(a, 2.0))
+    } else {
+        let b = dscale(r - z.re, 0.5).sqrt();
+        let b = if dneg(z.im) { -b } else { b };
+        cdd(z.im / dscale(b, 2.0), b)
+    }
+}
+fn c_sin(z: CDD) -> CDD { let a = c_exp(cmul_i(z)); let b = c_exp(-cmul_i(z)); let d = a - b; cscale(cdd(d.im, -d.re), 0.5) } // (a-b)/(2i)
+fn c_cos(z: CDD) -> CDD { cscale(c_exp(cmul_i(z)) + c_exp(-cmul_i(z)), 0.5) }
+fn c_sinh(z: CDD) -> CDD { cscale(c_exp(z) - c_exp(-z), 0.5) }
+fn c_cosh(z: CDD) -> CDD { cscale(c_exp(z) + c_exp(-z), 0.5) }
+fn c_inv(z: CDD) -> CDD { C_ONE / z }
+
+// ------------------------------------------------------------------------------------------------
+// the functions under test
+// ------------------------------------------------------------------------------------------------
+#[derive(Clone, Copy, PartialEq, Eq, Debug)]
+enum Fid {
+    Exp, Sin, Cos, Tan, Sec, Csc, Cot, Sinh, Cosh, Tanh, Sech, Csch, Coth, Sqrt,
+    Ln, Asin, Acos, Atan, Asec, Acsc, Acot, Asinh, Acosh, Atanh, Asech, Acsch, Acoth,
+}
+use Fid::*;
+const NF: usize = 27;
+const FORWARD: [Fid; 14] = [Exp, Sin, Cos, Tan, Sec, Csc, Cot, Sinh, Cosh, Tanh, Sech, Csch, Coth, Sqrt];
+const INVERSE: [Fid; 13] = [Ln, Asin, Acos, Atan, Asec, Acsc, Acot, Asinh, Acosh, Atanh, Asech, Acsch, Acoth];
+
+impl Fid {
+    fn idx(self) -> usize { self as usize }
+    fn name(self) -> &'static str {
+        ["exp", "sin", "cos", "tan", "sec", "csc", "cot", "sinh", "cosh", "tanh", "sech", "csch", "coth", "sqrt",
+         "ln", "asin", "acos", "atan", "asec", "acsc", "acot", "asinh", "acosh", "atanh", "asech", "acsch", "acoth"][self.idx()]
+    }
+    /// the real library call
+    fn lib(self, z: &Cmplx) -> Cmplx {
+        match self {
+            Exp => z.exp(), Sin => z.sin(), Cos => z.cos(), Tan => z.tan(), Sec => z.sec(), Csc => z.csc(), Cot => z.cot(),
+            Sinh => z.sinh(), Cosh => z.cosh(), Tanh => z.tanh(), Sech => z.sech(), Csch => z.csch(), Coth => z.coth(),
+            Sqrt => z.sqrt(), Ln => z.ln(),
+            Asin => z.asin(), Acos => z.acos(), Atan => z.atan(), Asec => z.asec(), Acsc => z.acsc(), Acot => z.acot(),
+            Asinh => z.asinh(), Acosh => z.acosh(), Atanh => z.atanh(), Asech => z.asech(), Acsch => z.acsch(), Acoth => z.acoth(),
+        }
+    }
+    /// definition of the forward functions in DD
+    fn fwd_ref(self, z: CDD) -> CDD {
+        match self {
+            Exp => c_exp(z), Sin => c_sin(z), Cos => c_cos(z), Tan => c_sin(z) / c_cos(z),
+            Sec => c_inv(c_cos(z)), Csc => c_inv(c_sin(z)), Cot => c_cos(z) / c_sin(z),
+            Sinh => c_sinh(z), Cosh => c_cosh(z), Tanh => c_sinh(z) / c_cosh(z),
+            Sech => c_inv(c_cosh(z)), Csch => c_inv(c_sinh(z)), Coth => c_cosh(z) / c_sinh(z),
+            Sqrt => c_sqrt(z),
+            _ => CDD::ZERO,
+        }
+    }
+    /// forward function that the inverse must invert
+    fn forward_of(self) -> Fid {
+        match self {
+            Ln => Exp, Asin => Sin, Acos => Cos, Atan => Tan, Asec => Sec, Acsc => Csc, Acot => Cot,
+            Asinh => Sinh, Acosh => Cosh, Atanh => Tanh, Asech => Sech, Acsch => Csch, Acoth => Coth,
+            o => o,
+        }
+    }
+    /// odd functions whose cuts lie on the imaginary axis (the two sides are w and -conj w)
+    fn imag_axis_cut(self) -> bool { matches!(self, Atan | Acot | Asinh | Acsch) }
+    /// exact poles (the function is unbounded there: outside the non-overflowing domain)
+    fn pole_at(self, z: &Cmplx) -> bool {
+        let (x, y) = (z.real, z.imag);
+        match self {
+            Atan | Acot => x == 0.0 && y.abs() == 1.0,
+            Atanh | Acoth => y == 0.0 && x.abs() == 1.0,
+            _ => false,
+        }
+    }
+}
+
+fn m(a: CDD) -> f64 { cabs_dd(a).f() }
+
+/// reference value, natural-unit rounding envelope (units of u, absolute) and |F'(ref)| of the forward
+/// function for an inverse function at z. The envelope models the formula the library evaluates:
+///   asin/acos/asinh kernel: q=1-/+w^2, s=sqrt q, t=s+iw (s+w), ln t   (w = z or 1/z)
+///   acosh kernel: p=sqrt(w-1)sqrt(w+1), t=p+w, ln t
+///   atan/atanh kernel: (ln a1 - ln a2)/2 with a1,a2 = 1 -/+ iw (1 +/- w)
+/// with: product/sum roundings u*|operand|, polar-form sqrt 4u|s| + (error of q)/(2|s|) (or the
+/// square-root bound 2*sqrt|dq| next to the branch point), ln: 2u + 2u|ln|, atan2: u|theta|,
+/// and, for the reciprocal-argument functions, a 4u relative perturbation of w through the exact
+/// derivative of the kernel.
+struct InvModel { r: CDD, e: f64, fp: f64 }
+
+fn sqrt_err(eq: f64, mq: f64, ms: f64) -> f64 {
+    // natural units; first-order eq/(2|s|), never more than 2*sqrt(|q|+u*eq)/u
+    let a = eq / (2.0 * ms);
+    let b = 2.0 * (mq + U * eq).sqrt() / U;
+    (if a.is_nan() { b } else { a.min(b) }) + 4.0 * ms
+}
+fn in_err(mw: f64, md: f64) -> f64 {
+    // 4u relative perturbation of w through a derivative of size 1/md with a sqrt-type singularity
+    let a = 4.0 * mw / md;
+    let b = 4.0 * (4.0 * U * mw).sqrt() / U;
+    if a.is_nan() { b } else { a.min(b) }
+}
+
+fn inv_model(f: Fid, z: CDD) -> InvModel {
+    let derived = matches!(f, Asec | Acsc | Acot | Asech | Acsch | Acoth);
+    let w = if derived { c_inv(z) } else { z };
+    let mz = m(z);
+    let mw = m(w);
+    let dfac = if derived { mz * mz } else { 1.0 };
+    match f {
+        Ln => { let l = c_ln(z); InvModel { r: l, e: 2.0 + 3.0 * m(l), fp: mz } }
+        Asin | Acos | Asec | Acsc | Asinh | Acsch => {
+            let hyper = matches!(f, Asinh | Acsch);
+            let q = if hyper { w * w + C_ONE } else { C_ONE - w * w };
+            let s = c_sqrt(q);
+            let t = if hyper { s + w } else { s + cmul_i(w) };
+            let l = c_ln(t);
+            let (mq, ms, mt, ml) = (m(q), m(s), m(t), m(l));
+            let eq = 2.0 * mw * mw + mq;
+            let es = sqrt_err(eq, mq, ms);
+            let et = es + mt;
+            let el = et / mt + 2.0 * ml + 2.0;
+            let ein = if derived { in_err(mw, ms) } else { 0.0 };
+            let mut e = el + ein + ml;
+            let r = if hyper { l } else {
+                let a = cdd(l.im, -l.re); // -i ln t
+                if matches!(f, Acos | Asec) { e += 4.0; cdd(dscale(PI_DD, 0.5) - a.re, -a.im) } else { a }
+            };
+            InvModel { r, e, fp: dfac * ms }
+        }
+        Acosh | Asech => {
+            let s1 = c_sqrt(w - C_ONE);
+            let s2 = c_sqrt(w + C_ONE);
+            let p = s1 * s2;
+            let t = p + w;
+            let l = c_ln(t);
+            let (mp, mt, ml) = (m(p), m(t), m(l));
+            let el = (13.0 * mp + mt) / mt + 2.0 * ml + 2.0;
+            let ein = if derived { in_err(mw, mp) } else { 0.0 };
+            InvModel { r: l, e: el + ein + ml, fp: dfac * mp }
+        }
+        _ => {
+            // Atan | Acot | Atanh | Acoth
+            let hyper = matches!(f, Atanh | Acoth);
+            let (a1, a2) = if hyper { (C_ONE + w, C_ONE - w) } else { (C_ONE - cmul_i(w), C_ONE + cmul_i(w)) };
+            let (m1, m2) = (m(a1), m(a2));
+            if m1 == 0.0 || m2 == 0.0 { return InvModel { r: CDD::ZERO, e: f64::INFINITY, fp: 0.0 }; }
+            let (la, lb) = (c_ln(a1), c_ln(a2));
+            let d = la - lb;
+            let r = if hyper { cscale(d, 0.5) } else { cscale(cmul_i(d), 0.5) };
+            let ein = if derived { 4.0 * mw / (m1 * m2) } else { 0.0 };
+            let e = 6.0 + 2.0 * m(la) + 2.0 * m(lb) + 1.5 * m(d) + ein;
+            InvModel { r, e, fp: dfac * m1 * m2 }
+        }
+    }
+}
+
+/// principal-range excess of a library value (0 when inside the closed range)
+fn range_excess(f: Fid, v: &Cmplx) -> f64 {
+    use std::f64::consts::{FRAC_PI_2 as H, PI as P};
+    let over = |x: f64, lo: f64, hi: f64| if x < lo { lo - x } else if x > hi { x - hi } else { 0.0 };
+    match f {
+        Sqrt => over(v.real, 0.0, f64::INFINITY),
+        Ln => over(v.imag, -P, P),
+        Asin | Acsc | Atan | Acot => over(v.real, -H, H),
+        Acos | Asec => over(v.real, 0.0, P),
+        Asinh | Acsch | Atanh | Acoth => over(v.imag, -H, H),
+        Acosh | Asech => over(v.real, 0.0, f64::INFINITY).max(over(v.imag, -P, P)),
+        _ => 0.0,
+    }
+}
+fn range_name(f: Fid) -> &'static str {
+    match f {
+        Sqrt => "Re>=0", Ln => "Im in [-pi,pi]", Asin | Acsc | Atan | Acot => "Re in [-pi/2,pi/2]", Acos | Asec => "Re in [0,pi]",
+        Asinh | Acsch | Atanh | Acoth => "Im in [-pi/2,pi/2]", Acosh | Asech => "Re>=0, Im in [-pi,pi]", _ => "",
+    }
+}
+
+// Rust's f64::atanh/asinh/acosh are std compositions that lose accuracy (atanh near +-1: 2x/(1-x) then
+// ln_1p next to -1); the axis oracle uses ln_1p-based forms whose every step is well conditioned.
+fn r_asinh(x: f64) -> f64 { let a = x.abs(); let v = (a + a * a / (1.0 + (a * a + 1.0).sqrt())).ln_1p(); if x < 0.0 { -v } else { v } }
+fn r_acosh(x: f64) -> f64 { let d = x - 1.0; (d + (d * (x + 1.0)).sqrt()).ln_1p() }
+fn r_atanh(x: f64) -> f64 { 0.5 * (x.ln_1p() - (-x).ln_1p()) }
+
+/// real-axis reduction: the real libm value of f at x when f is real-valued there on the principal branch
+fn real_axis(f: Fid, x: f64) -> Option<f64> {
+    let ax = x.abs();
+    Some(match f {
+        Exp => x.exp(), Sin => x.sin(), Cos => x.cos(), Tan => x.tan(), Sec => 1.0 / x.cos(), Csc => 1.0 / x.sin(), Cot => 1.0 / x.tan(),
+        Sinh => x.sinh(), Cosh => x.cosh(), Tanh => x.tanh(), Sech => 1.0 / x.cosh(), Csch => 1.0 / x.sinh(), Coth => 1.0 / x.tanh(),
+        Sqrt => if x > 0.0 { x.sqrt() } else { return None },
+        Ln => if x > 0.0 { x.ln() } else { return None },
+        Asin => if ax <= 1.0 { x.asin() } else { return None },
+        Acos => if ax <= 1.0 { x.acos() } else { return None },
+        Atan => x.atan(),
+        Asec => if ax >= 1.0 { (1.0 / x).acos() } else { return None },
+        Acsc => if ax >= 1.0 { (1.0 / x).asin() } else { return None },
+        Acot => (1.0 / x).atan(),
+        Asinh => r_asinh(x),
+        Acosh => if x >= 1.0 { r_acosh(x) } else { return None },
+        Atanh => if ax < 1.0 { r_atanh(x) } else { return None },
+        Asech => if x > 0.0 && x <= 1.0 { r_acosh(1.0 / x) } else { return None },
+        Acsch => r_asinh(1.0 / x),
+        Acoth => if ax > 1.0 { r_atanh(1.0 / x) } else { return None },
+    })
+}
+/// imaginary-axis reduction f(iy) = (re, im) through real libm functions of y
+fn imag_axis(f: Fid, y: f64) -> Option<(f64, f64)> {
+    Some(match f {
+        Exp => (y.cos(), y.sin()), Sin => (0.0, y.sinh()), Cos => (y.cosh(), 0.0), Tan => (0.0, y.tanh()),
+        Sinh => (0.0, y.sin()), Cosh => (y.cos(), 0.0), Tanh => (0.0, y.tan()),
+        Sec => (1.0 / y.cosh(), 0.0), Sech => (1.0 / y.cos(), 0.0), Csc => (0.0, -1.0 / y.sinh()), Csch => (0.0, -1.0 / y.sin()),
+        Cot => (0.0, -1.0 / y.tanh()), Coth => (0.0, -1.0 / y.tan()),
+        Asin => (0.0, r_asinh(y)), Atanh => (0.0, y.atan()),
+        Atan => if y.abs() < 1.0 { (0.0, r_atanh(y)) } else { return None },
+        Asinh => if y.abs() <= 1.0 { (0.0, y.asin()) } else { return None },
+        Acsc => (0.0, -r_asinh(1.0 / y)), Acoth => (0.0, -(1.0 / y).atan()),
+        Acot => if y.abs() > 1.0 { (0.0, -r_atanh(1.0 / y)) } else { return None },
+        Acsch => if y.abs() >= 1.0 { (0.0, -(1.0 / y).asin()) } else { return None },
+        _ => return None,
+    })
+}
+
+// ------------------------------------------------------------------------------------------------
+// judging
+// ------------------------------------------------------------------------------------------------
+/// per-unit accumulator of "observed error / threshold" maxima (flushed into Stats at the end of a unit)
+struct Acc {
+    refv: [f64; NF], axis: [f64; NF], rt: [f64; NF], range: [f64; NF], selfc: [f64; NF], nat: [f64; NF],
+    misc: [f64; NMISC],
+    capped: [u64; NF],
+    checked: [u64; NF],
+}
+const NMISC: usize = 14;
+const MISC_NAMES: [&str; NMISC] = ["pow:ref", "pow:exp-w-ln", "powf:ref", "powf:vs-pow", "log:ref", "polar:ref", "polar:roundtrip",
+    "abs:ref", "arg:ref", "abs_sqr:ref", "identity:reciprocal", "identity:pythagorean", "pow:real-axis", "log:real-axis"];
+impl Acc {
+    fn new() -> Acc { Acc { refv: [0.0; NF], axis: [0.0; NF], rt: [0.0; NF], range: [0.0; NF], selfc: [0.0; NF], nat: [0.0; NF], misc: [0.0; NMISC], capped: [0; NF], checked: [0; NF] } }
+    fn flush(&self, st: &mut Stats) {
+        for f in FORWARD.iter().chain(INVERSE.iter()) {
+            let i = f.idx();
+            let n = f.name();
+            st.max(&format!("frac-of-threshold:value:{}", n), self.refv[i]);
+            st.max(&format!("frac-of-threshold:axis-reduction:{}", n), self.axis[i]);
+            st.max(&format!("natural-units:value:{}", n), self.nat[i]);
+            if self.checked[i] > 0 { st.add(&format!("judged:{}", n), self.checked[i]); }
+            if INVERSE.contains(f) || *f == Sqrt {
+                st.max(&format!("frac-of-threshold:right-inverse:{}", n), self.rt[i]);
+                st.max(&format!("frac-of-slack:range:{}", n), self.range[i]);
+            }
+            if INVERSE.contains(f) {
+                st.max(&format!("frac-of-tol:reference-selfcheck:{}", n), self.selfc[i]);
+                if self.capped[i] > 0 { st.add(&format!("skipped:envelope-above-cap:{}", n), self.capped[i]); }
+            }
+        }
+        for k in 0..NMISC { st.max(&format!("frac-of-threshold:{}", MISC_NAMES[k]), self.misc[k]); }
+    }
+}
+#[inline]
+fn upd(slot: &mut f64, v: f64) { if v > *slot { *slot = v; } }
+
+fn showz(z: &Cmplx) -> String { format!("({}, {})", hexf(z.real), hexf(z.imag)) }
+fn showr(r: CDD) -> String { format!("({:e}, {:e})", r.re.f(), r.im.f()) }
+fn cdiff(v: &Cmplx, r: CDD) -> f64 { m(cdd(dd(v.real) - r.re, dd(v.imag) - r.im)) }
+fn cdiff2(v: &Cmplx, re: f64, im: f64) -> f64 { (v.real - re).hypot(v.imag - im) }
+fn fin(v: &Cmplx) -> bool { v.real.is_finite() && v.imag.is_finite() }
+fn neg0(x: f64) -> bool { x == 0.0 && x.is_sign_negative() }
+
+/// call a unary library function; a panic where a value is demanded is a violation
+fn call(st: &mut Stats, f: Fid, z: &Cmplx) -> Option<Cmplx> {
+    st.eval();
+    match catch(|| f.lib(z)) {
+        Outcome::Ok(v) => Some(v),
+        other => {
+            st.violation(&format!("C14:{}:Cmplx:refused", f.name()), format!("{}({}) {}", f.name(), showz(z), other.describe()));
+            None
+        }
+    }
+}
+
+/// Evaluation points for the reference: z itself, or -- when z lies exactly on an axis that can carry a
+/// cut of f -- the two one-sided limits, realised in DD by an offset of 1e-200 to either side (the DD
+/// code has no signed zeros; 1e-200 is far below every rounding and far above underflow of its products).
+/// ln / sqrt: only a negative-zero imaginary part on the negative real axis admits the lower side (both
+/// readings of the property agree that +0 means the closed upper side, which the DD code returns for z itself).
+const ETA: f64 = 1e-200;
+fn sides(f: Fid, z: &Cmplx, zc: CDD) -> Vec<CDD> {
+    if matches!(f, Ln | Sqrt) {
+        if neg0(z.imag) && z.real < 0.0 { return vec![zc, cdd(zc.re, dd(-ETA))]; }
+        return vec![zc];
+    }
+    if !INVERSE.contains(&f) { return vec![zc]; }
+    if z.imag == 0.0 { return vec![cdd(zc.re, dd(ETA)), cdd(zc.re, dd(-ETA))]; }
+    if z.real == 0.0 && f.imag_axis_cut() { return vec![cdd(dd(ETA), zc.im), cdd(dd(-ETA), zc.im)]; }
+    vec![zc]
+}
+
+fn judge_axis(st: &mut Stats, acc: &mut Acc, f: Fid, z: &Cmplx, v: &Cmplx, env: f64) {
+    let exp = if z.imag == 0.0 { real_axis(f, z.real).map(|r| (r, 0.0)) } else if z.real == 0.0 { imag_axis(f, z.imag) } else { None };
+    if let Some((re, im)) = exp {
+        if !(re.is_finite() && im.is_finite()) { return; }
+        let mag = re.hypot(im);
+        let tol = env + 8.0 * U * mag;
+        let err = cdiff2(v, re, im);
+        upd(&mut acc.axis[f.idx()], err / tol);
+        if !(err <= tol) {
+            st.violation(&format!("C14:{}:Cmplx:axis-reduction", f.name()),
+                format!("{}({}) = {} but the real libm reduction gives ({:e}, {:e}); |diff| {:e} > {:e}", f.name(), showz(z), showz(v), re, im, err, tol));
+        }
+    }
+}
+
+fn judge_forward(st: &mut Stats, acc: &mut Acc, f: Fid, z: &Cmplx, zc: CDD) -> Option<Cmplx> {
+    let r = f.fwd_ref(zc);
+    let mr = m(r);
+    if !cfinite(r) || !(mr < 1e300) { st.count("skipped:forward-reference-not-finite"); return None; }
+    let v = call(st, f, z)?;
+    acc.checked[f.idx()] += 1;
+    let env = K_FWD * U * mr;
+    let mut err = cdiff(&v, r);
+    for zs in sides(f, z, zc).iter().skip(1) { err = err.min(cdiff(&v, f.fwd_ref(*zs))); }
+    upd(&mut acc.refv[f.idx()], err / env);
+    upd(&mut acc.nat[f.idx()], err / (U * mr));
+    if !fin(&v) {
+        st.violation(&format!("C14:{}:Cmplx:non-finite", f.name()), format!("{}({}) = {} (reference {})", f.name(), showz(z), showz(&v), showr(r)));
+        return None;
+    }
+    if !(err <= env) {
+        st.violation(&format!("C14:{}:Cmplx:value", f.name()),
+            format!("{}({}) = {} but the definition gives {}; |diff| {:e} > {:e}", f.name(), showz(z), showz(&v), showr(r), err, env));
+    }
+    judge_axis(st, acc, f, z, &v, env);
+    if f == Sqrt {
+        let exc = range_excess(f, &v);
+        if exc > 0.0 || v.real.is_nan() {
+            st.violation("C14:sqrt:Cmplx:principal-range", format!("sqrt({}) = {} violates Re sqrt z >= 0", showz(z), showz(&v)));
+        }
+        let sq = v * v;
+        let tol = 4.0 * K_FWD * U * m(zc);
+        let e2 = cdiff(&sq, zc);
+        upd(&mut acc.rt[f.idx()], e2 / tol);
+        if !(e2 <= tol) {
+            st.violation("C14:sqrt:Cmplx:right-inverse", format!("sqrt({})^2 = {} (sqrt = {}); |diff| {:e} > {:e}", showz(z), showz(&sq), showz(&v), e2, tol));
+        }
+    }
+    Some(v)
+}
+
+fn judge_inverse(st: &mut Stats, acc: &mut Acc, f: Fid, z: &Cmplx, zc: CDD, selfcheck: bool) {
+    if f.pole_at(z) { st.count("skipped:exact-pole"); return; }
+    let models: Vec<InvModel> = sides(f, z, zc).into_iter().map(|zs| inv_model(f, zs)).collect();
+    if models.iter().any(|mdl| !(K_INV * U * mdl.e <= ENV_CAP) || !cfinite(mdl.r)) { acc.capped[f.idx()] += 1; return; }
+    let mz = m(zc);
+    let fw = f.forward_of();
+    for mdl in models.iter().filter(|_| selfcheck) {
+        // the reference must itself be a right inverse in DD (guards the oracle, never a verdict on ohsl)
+        let back = fw.fwd_ref(mdl.r);
+        let e1 = mdl.e * SELF_SCALE;
+        let tol = mdl.fp * e1 + 4.0 * (1.0 + mz).powi(3) * e1 * e1 + SELF_SCALE * (4.0 * mz + 1.0);
+        let err = m(back - zc);
+        upd(&mut acc.selfc[f.idx()], err / tol);
+        if !(err <= tol) && st.harness_errors.len() < 5 {
+            st.harness_errors.push(format!("C14 reference self-check failed: {}_DD({}) -> {} -> {}; err {:e} > {:e}", f.name(), showz(z), showr(mdl.r), showr(back), err, tol));
+        }
+    }
+    let v = match call(st, f, z) { Some(v) => v, None => return };
+    acc.checked[f.idx()] += 1;
+    // the side whose (error / envelope) is smallest is the one the value is judged against
+    let mut best = 0usize;
+    for k in 1..models.len() { if cdiff(&v, models[k].r) / models[k].e < cdiff(&v, models[best].r) / models[best].e { best = k; } }
+    let mdl = &models[best];
+    let eabs = K_INV * U * mdl.e;
+    let err = cdiff(&v, mdl.r);
+    upd(&mut acc.refv[f.idx()], err / eabs);
+    upd(&mut acc.nat[f.idx()], err / (U * mdl.e));
+    if !fin(&v) {
+        st.violation(&format!("C14:{}:Cmplx:non-finite", f.name()), format!("{}({}) = {} (reference {})", f.name(), showz(z), showz(&v), showr(mdl.r)));
+        return;
+    }
+    if !(err <= eabs) {
+        st.violation(&format!("C14:{}:Cmplx:value", f.name()),
+            format!("{}({}) = {} but the principal value is {}; |diff| {:e} > envelope {:e} (natural {:e} u)", f.name(), showz(z), showz(&v), showr(mdl.r), err, eabs, mdl.e));
+    }
+    // principal range (closed range + the accuracy envelope; ln: the range of atan2, no slack)
+    let slack = if f == Ln { 0.0 } else { eabs };
+    let exc = range_excess(f, &v);
+    if exc > 0.0 { upd(&mut acc.range[f.idx()], if slack > 0.0 { exc / slack } else { f64::INFINITY }); }
+    if exc > slack {
+        st.violation(&format!("C14:{}:Cmplx:principal-range", f.name()),
+            format!("{}({}) = {} violates {} by {:e} (slack {:e})", f.name(), showz(z), showz(&v), range_name(f), exc, slack));
+    }
+    // right inverse through the library's own forward function
+    st.eval();
+    match catch(|| fw.lib(&v)) {
+        Outcome::Ok(b) => {
+            let tol = mdl.fp * eabs + 4.0 * (1.0 + mz).powi(3) * eabs * eabs + 4.0 * K_FWD * U * mz;
+            let e2 = cdiff(&b, zc);
+            upd(&mut acc.rt[f.idx()], e2 / tol);
+            if !(e2 <= tol) {
+                st.violation(&format!("C14:{}:Cmplx:right-inverse", f.name()),
+                    format!("{}({}({})) = {} with {} = {}; |diff| {:e} > {:e}", fw.name(), f.name(), showz(z), showz(&b), f.name(), showz(&v), e2, tol));
+            }
+        }
+        other => st.violation(&format!("C14:{}:Cmplx:refused", fw.name()), format!("{}({}) {}", fw.name(), showz(&v), other.describe())),
+    }
+    judge_axis(st, acc, f, z, &v, eabs);
+}
+
+fn call2<R>(st: &mut Stats, name: &str, desc: impl Fn() -> String, f: impl FnOnce() -> R) -> Option<R> {
+    st.eval();
+    match catch(f) {
+        Outcome::Ok(v) => Some(v),
+        other => { st.violation(&format!("C14:{}:Cmplx:refused", name), format!("{} {}", desc(), other.describe())); None }
+    }
+}
+
+/// candidate logarithms of z: the principal one and, for a negative real z with a -0 imaginary part, the lower side
+fn ln_sides(z: &Cmplx, zc: CDD) -> Vec<CDD> {
+    let l = c_ln(zc);
+    if neg0(z.imag) && z.real < 0.0 { vec![l, cconj(l)] } else { vec![l] }
+}
+/// the candidate with the smallest error relative to its own magnitude: (error, candidate)
+fn min_diff(v: &Cmplx, cands: &[CDD]) -> (f64, CDD) {
+    let mut best = (cdiff(v, cands[0]), cands[0]);
+    for c in cands.iter().skip(1) { let e = cdiff(v, *c); if e / m(*c) < best.0 / m(best.1) { best = (e, *c); } }
+    best
+}
+fn pow_cond(mw: f64, ml: f64) -> f64 { 5.0 + 6.0 * mw * (1.0 + ml) }
+
+fn judge_pow(st: &mut Stats, acc: &mut Acc, z: &Cmplx, zc: CDD, w: &Cmplx) {
+    let wc = CDD::from(*w);
+    let ls = ln_sides(z, zc);
+    let cands: Vec<CDD> = ls.iter().map(|l| c_exp(wc * *l)).collect();
+    let ml = m(ls[0]);
+    let mw = m(wc);
+    let desc = || format!("pow(z={}, w={})", showz(z), showz(w));
+    let v = match call2(st, "pow", desc, || z.pow(w)) { Some(v) => v, None => return };
+    let (err, r) = min_diff(&v, &cands);
+    let mr = m(r);
+    let env = K_POW * U * pow_cond(mw, ml) * mr;
+    upd(&mut acc.misc[0], err / env);
+    if !fin(&v) || !(err <= env) {
+        st.violation("C14:pow:Cmplx:value", format!("{} = {} but exp(w ln z) = {}; |diff| {:e} > {:e}", desc(), showz(&v), showr(r), err, env));
+        return;
+    }
+    // z^w = exp(w ln z) between library values
+    let zz = *z; let ww = *w;
+    if let Some(e) = call2(st, "exp", desc, move || (ww * zz.ln()).exp()) {
+        let d = cdiff2(&v, e.real, e.imag);
+        let tol = 2.0 * env + K_FWD * U * mr;
+        upd(&mut acc.misc[1], d / tol);
+        if !(d <= tol) {
+            st.violation("C14:pow:Cmplx:exp-w-ln", format!("{} = {} but exp(w*ln(z)) = {} (library values); |diff| {:e} > {:e}", desc(), showz(&v), showz(&e), d, tol));
+        }
+    }
+    if z.imag == 0.0 && z.real > 0.0 && w.imag == 0.0 {
+        let p = z.real.powf(w.real);
+        let d = cdiff2(&v, p, 0.0);
+        let tol = env + 8.0 * U * p.abs();
+        upd(&mut acc.misc[12], d / tol);
+        if !(d <= tol) { st.violation("C14:pow:Cmplx:axis-reduction", format!("{} = {} but real powf gives {:e}; |diff| {:e} > {:e}", desc(), showz(&v), p, d, tol)); }
+    }
+}
+
+fn judge_powf(st: &mut Stats, acc: &mut Acc, z: &Cmplx, zc: CDD, x: f64) {
+    let ls = ln_sides(z, zc);
+    let cands: Vec<CDD> = ls.iter().map(|l| c_exp(cdd(dmulf(l.re, x), dmulf(l.im, x)))).collect();
+    let desc = || format!("powf(z={}, x={})", showz(z), hexf(x));
+    let v = match call2(st, "powf", desc, || z.powf(x)) { Some(v) => v, None => return };
+    let (err, r) = min_diff(&v, &cands);
+    let env = K_POW * U * pow_cond(x.abs(), m(ls[0])) * m(r);
+    upd(&mut acc.misc[2], err / env);
+    if !fin(&v) || !(err <= env) {
+        st.violation("C14:powf:Cmplx:value", format!("{} = {} but exp(x ln z) = {}; |diff| {:e} > {:e}", desc(), showz(&v), showr(r), err, env));
+        return;
+    }
+    let xw = Cmplx::new(x, 0.0);
+    if let Some(p) = call2(st, "pow", desc, || z.pow(&xw)) {
+        let d = cdiff2(&v, p.real, p.imag);
+        upd(&mut acc.misc[3], d / (2.0 * env));
+        if !(d <= 2.0 * env) { st.violation("C14:powf:Cmplx:vs-pow", format!("{} = {} but pow(z,(x,0)) = {}; |diff| {:e} > {:e}", desc(), showz(&v), showz(&p), d, 2.0 * env)); }
+    }
+    if z.imag == 0.0 && z.real > 0.0 {
+        let p = z.real.powf(x);
+        let d = cdiff2(&v, p, 0.0);
+        let tol = env + 8.0 * U * p.abs();
+        upd(&mut acc.misc[12], d / tol);
+        if !(d <= tol) { st.violation("C14:powf:Cmplx:axis-reduction", format!("{} = {} but real powf gives {:e}; |diff| {:e} > {:e}", desc(), showz(&v), p, d, tol)); }
+    }
+}
+
+fn judge_log(st: &mut Stats, acc: &mut Acc, z: &Cmplx, zc: CDD, b: &Cmplx) {
+    let bc = CDD::from(*b);
+    let lz = ln_sides(z, zc);
+    let lb = ln_sides(b, bc);
+    let mlb = m(lb[0]);
+    if !(mlb >= 1e-3) { st.count("skipped:log-base-too-close-to-1"); return; }
+    let mut cands = vec![];
+    for a in &lz { for c in &lb { cands.push(*a / *c); } }
+    let desc = || format!("log(z={}, base={})", showz(z), showz(b));
+    let bb = *b;
+    let v = match call2(st, "log", desc, move || z.log(bb)) { Some(v) => v, None => return };
+    let (err, r) = min_diff(&v, &cands);
+    let mr = m(r);
+    let env = K_POW * U * (8.0 * mr + 2.0 / mlb + 2.0 * mr / mlb);
+    upd(&mut acc.misc[4], err / env);
+    if !fin(&v) || !(err <= env) {
+        st.violation("C14:log:Cmplx:value", format!("{} = {} but ln z / ln b = {}; |diff| {:e} > {:e}", desc(), showz(&v), showr(r), err, env));
+        return;
+    }
+    if z.imag == 0.0 && z.real > 0.0 && b.imag == 0.0 && b.real > 0.0 {
+        let p = z.real.ln() / b.real.ln();
+        let d = cdiff2(&v, p, 0.0);
+        let tol = env + 8.0 * U * p.abs();
+        upd(&mut acc.misc[13], d / tol);
+        if !(d <= tol) { st.violation("C14:log:Cmplx:axis-reduction", format!("{} = {} but real ln x/ln b = {:e}; |diff| {:e} > {:e}", desc(), showz(&v), p, d, tol)); }
+    }
+}
+
+/// abs, arg, abs_sqr, conj, Signed::abs, polar and the polar round trip
+fn judge_polar(st: &mut Stats, acc: &mut Acc, z: &Cmplx, zc: CDD) {
+    let zz = *z;
+    let desc = || format!("z={}", showz(z));
+    let rdd = cabs_dd(zc);
+    let tdd = dd_atan2(zc.im, zc.re);
+    let (rr, th) = (rdd.f(), tdd.f());
+    // abs
+    if let Some(a) = call2(st, "abs", desc, move || zz.abs()) {
+        let e = (dd(a) - rdd).f().abs();
+        let tol = K_FWD * U * rr;
+        upd(&mut acc.misc[7], e / tol);
+        if !(e <= tol) { st.violation("C14:abs:Cmplx:value", format!("abs({}) = {} but |z| = {:e}; |diff| {:e} > {:e}", showz(z), hexf(a), rr, e, tol)); }
+        if let Some(s) = call2(st, "Signed::abs", desc, move || Signed::abs(&zz)) {
+            if !(s.real == a && s.imag == 0.0) { st.violation("C14:signed_abs:Cmplx:value", format!("Signed::abs({}) = {} but abs = {}", showz(z), showz(&s), hexf(a))); }
+        }
+    }
+    // arg (a -0 imaginary part on the negative real axis may select -pi)
+    if let Some(t) = call2(st, "arg", desc, move || zz.arg()) {
+        let mut e = (dd(t) - tdd).f().abs();
+        if neg0(z.imag) && z.real < 0.0 { e = e.min((dd(t) + tdd).f().abs()); }
+        let tol = K_FWD * U * th.abs();
+        if tol > 0.0 { upd(&mut acc.misc[8], e / tol); }
+        if !(e <= tol) || !(t.abs() <= std::f64::consts::PI) {
+            st.violation("C14:arg:Cmplx:value", format!("arg({}) = {} but the principal argument is {:e}; |diff| {:e} > {:e}", showz(z), hexf(t), th, e, tol));
+        }
+    }
+    // abs_sqr
+    if let Some(a) = call2(st, "abs_sqr", desc, move || zz.abs_sqr()) {
+        let r2 = zc.re * zc.re + zc.im * zc.im;
+        let e = (dd(a) - r2).f().abs();
+        let tol = K_FWD * U * r2.f();
+        upd(&mut acc.misc[9], e / tol);
+        if !(e <= tol) { st.violation("C14:abs_sqr:Cmplx:value", format!("abs_sqr({}) = {} but |z|^2 = {:e}", showz(z), hexf(a), r2.f())); }
+    }
+    // conj: exact
+    if let Some(c) = call2(st, "conj", desc, move || zz.conj()) {
+        if !(c.real.to_bits() == z.real.to_bits() && c.imag.to_bits() == (-z.imag).to_bits()) {
+            st.violation("C14:conj:Cmplx:value", format!("conj({}) = {}", showz(z), showz(&c)));
+        }
+    }
+    // polar(r, theta) against r (cos theta, sin theta) in DD
+    if let Some(p) = call2(st, "polar", desc, move || Cmplx::polar(rr, th)) {
+        let (s, c) = dd_sincos(dd(th));
+        let r = cdd(dmulf(c, rr), dmulf(s, rr));
+        let e = cdiff(&p, r);
+        let tol = K_FWD * U * rr;
+        upd(&mut acc.misc[5], e / tol);
+        if !(e <= tol) { st.violation("C14:polar:Cmplx:value", format!("polar({}, {}) = {} but r e^(i theta) = {}; |diff| {:e} > {:e}", hexf(rr), hexf(th), showz(&p), showr(r), e, tol)); }
+    }
+    // polar(|z|, arg z) = z through the library's own modulus and argument
+    if let Some(p) = call2(st, "polar", desc, move || Cmplx::polar(zz.abs(), zz.arg())) {
+        let e = cdiff(&p, zc);
+        let tol = K_FWD * U * rr * (2.0 + th.abs());
+        upd(&mut acc.misc[6], e / tol);
+        if !(e <= tol) { st.violation("C14:polar:Cmplx:roundtrip", format!("polar(abs z, arg z) = {} for {}; |diff| {:e} > {:e}", showz(&p), desc(), e, tol)); }
+    }
+}
+
+/// reciprocal and Pythagorean identities between library values
+fn judge_identities(st: &mut Stats, acc: &mut Acc, z: &Cmplx, vals: &[Option<Cmplx>; NF]) {
+    let one = |a: Cmplx, b: Cmplx| -> f64 { let p = a * b; (p.real - 1.0).hypot(p.imag) };
+    for (a, b) in [(Sec, Cos), (Csc, Sin), (Cot, Tan), (Sech, Cosh), (Csch, Sinh), (Coth, Tanh)] {
+        if let (Some(x), Some(y)) = (vals[a.idx()], vals[b.idx()]) {
+            let e = one(x, y);
+            let tol = 8.0 * K_ID * U;
+            upd(&mut acc.misc[10], e / tol);
+            if !(e <= tol) {
+                st.violation(&format!("C14:{}:Cmplx:reciprocal", a.name()),
+                    format!("{}(z)*{}(z) = 1 + {:e} (> {:e}) at z={}: {} = {}, {} = {}", a.name(), b.name(), e, tol, showz(z), a.name(), showz(&x), b.name(), showz(&y)));
+            }
+        }
+    }
+    for (sn, cs, sign, name) in [(Sin, Cos, 1.0, "sin^2+cos^2"), (Sinh, Cosh, -1.0, "cosh^2-sinh^2")] {
+        if let (Some(s), Some(c)) = (vals[sn.idx()], vals[cs.idx()]) {
+            let (s2, c2) = (s * s, c * c);
+            let d = Cmplx::new(c2.real + sign * s2.real - 1.0, c2.imag + sign * s2.imag);
+            let scale = s.abs_sqr() + c.abs_sqr();
+            let tol = 4.0 * K_ID * U * scale;
+            if !(tol <= ENV_CAP) { continue; }
+            let e = d.real.hypot(d.imag);
+            upd(&mut acc.misc[11], e / tol);
+            if !(e <= tol) {
+                st.violation(&format!("C14:{}:Cmplx:pythagorean", sn.name()), format!("{} = 1 + {:e} (> {:e}) at z={}: {} = {}, {} = {}", name, e, tol, showz(z), sn.name(), showz(&s), cs.name(), showz(&c)));
+            }
+        }
+    }
+}
+
+/// everything at one point
+struct Aux { w: [Cmplx; 2], x: [f64; 2], b: Cmplx }
+
+fn judge_point(st: &mut Stats, acc: &mut Acc, class: &str, z: Cmplx, aux: &Aux) {
+    let mz = z.real.hypot(z.imag);
+    if !(mz >= 1e-3 * (1.0 - 1e-9) && mz <= 10.0 * (1.0 + 1e-9)) || !fin(&z) { st.count("skipped:outside-domain"); return; }
+    st.next_case();
+    let zc = CDD::from(z);
+    let h = hmix(hmix(0xC14, z.real.to_bits()), z.imag.to_bits());
+    let mut vals: [Option<Cmplx>; NF] = [None; NF];
+    for f in FORWARD { vals[f.idx()] = judge_forward(st, acc, f, &z, zc); }
+    for f in INVERSE { judge_inverse(st, acc, f, &z, zc, h % 4 == 0); }
+    judge_identities(st, acc, &z, &vals);
+    judge_polar(st, acc, &z, zc);
+    for w in &aux.w { judge_pow(st, acc, &z, zc, w); }
+    for x in &aux.x { judge_powf(st, acc, &z, zc, *x); }
+    judge_log(st, acc, &z, zc, &aux.b);
+    // a point is non-trivial unless it lies strictly inside the first quadrant part of the unit disc,
+    // well away from every branch point (the only region the library's own tests sample)
+    let near_bp = [(1.0, 0.0), (-1.0, 0.0), (0.0, 1.0), (0.0, -1.0)].iter().any(|(a, b)| (z.real - a).hypot(z.imag - b) < 1e-3);
+    let tame = z.real > 0.0 && z.imag > 0.0 && mz < 1.0 && !near_bp;
+    if !tame { st.nontrivial(h); }
+    st.count(&format!("points:{}", class));
+    let q = if z.real == 0.0 || z.imag == 0.0 { "axis" } else if z.real > 0.0 { if z.imag > 0.0 { "Q1" } else { "Q4" } } else if z.imag > 0.0 { "Q2" } else { "Q3" };
+    st.count(&format!("region:{}:{}", q, if mz > 1.0 { "outside-unit-disc" } else { "inside-unit-disc" }));
+    st.sample(|| format!("class={} z={} w={} {} x={:?} base={}", class, showz(&z), showz(&aux.w[0]), showz(&aux.w[1]), aux.x, showz(&aux.b)));
+}
+
+// ------------------------------------------------------------------------------------------------
+// workload
+// ------------------------------------------------------------------------------------------------
+const W_LIST: [(f64, f64); 16] = [(2.0, 0.0), (-1.0, 0.0), (0.5, 0.0), (3.0, 0.0), (0.0, 1.0), (0.0, -2.0), (1.0, 1.0), (-1.5, 2.0),
+    (2.0, -2.0), (0.0, 3.0), (0.25, -0.75), (-3.0, 0.0), (0.0, 0.0), (-0.5, 0.0), (1.0 / 3.0, 0.0), (-2.0, -2.0)];
+const X_LIST: [f64; 12] = [2.0, 3.0, -1.0, 0.5, -0.5, 1.0 / 3.0, -2.0, 2.5, -3.0, 0.0, 1.0, 1.5];
+const B_LIST: [(f64, f64); 10] = [(2.0, 0.0), (10.0, 0.0), (0.5, 0.0), (std::f64::consts::E, 0.0), (0.0, 1.0), (-2.0, 0.0), (1.0, 1.0), (-1.0, -1.0), (0.1, -3.0), (3.0, 4.0)];
+
+fn enum_aux(i: usize) -> Aux {
+    let w = |k: usize| { let (a, b) = W_LIST[k % W_LIST.len()]; Cmplx::new(a, b) };
+    let (br, bi) = B_LIST[(i / 3) % B_LIST.len()];
+    Aux { w: [w(i), w(i / 16 + 7 * i + 5)], x: [X_LIST[i % X_LIST.len()], X_LIST[(i / 12 + 5 * i + 1) % X_LIST.len()]], b: Cmplx::new(br, bi) }
+}
+
+fn radii(n: usize) -> Vec<f64> {
+    (0..n).map(|k| (1e-3 * 1e4f64.powf(k as f64 / (n - 1) as f64)).clamp(1e-3, 10.0)).collect()
+}
+
+/// the seed-independent sweep: polar grid, both axes with signed zeros, both sides of every cut,
+/// neighbourhoods of the branch points, zeros/poles of the trigonometric functions
+fn enumerated(quick: bool) -> Vec<(Cmplx, &'static str)> {
+    let mut p: Vec<(Cmplx, &'static str)> = vec![];
+    let (nr, na, nax) = if quick { (40usize, 48usize, 64usize) } else { (160, 192, 512) };
+    for r in radii(nr) {
+        for k in 0..na {
+            let t = (k as f64 + 0.25) * std::f64::consts::TAU / na as f64;
+            let (x, y) = (r * t.cos(), r * t.sin());
+            // keep |z| inside the quantified annulus despite the rounding of cos/sin
+            let s = if x.hypot(y) > 10.0 { 1.0 - 1e-15 } else if x.hypot(y) < 1e-3 { 1.0 + 1e-15 } else { 1.0 };
+            p.push((Cmplx::new(x * s, y * s), "polar-grid"));
+        }
+    }
+    for r in radii(nax) {
+        for sr in [1.0, -1.0] {
+            for z0 in [0.0, -0.0] {
+                p.push((Cmplx::new(sr * r, z0), "real-axis-signed-zero"));
+                p.push((Cmplx::new(z0, sr * r), "imag-axis-signed-zero"));
+            }
+            for eps in [1e-12, r * 1e-9] {
+                for se in [1.0, -1.0] {
+                    p.push((Cmplx::new(sr * r, se * eps), "beside-real-axis"));
+                    p.push((Cmplx::new(se * eps, sr * r), "beside-imag-axis"));
+                }
+            }
+        }
+    }
+    let centres = [(1.0, 0.0), (-1.0, 0.0), (0.0, 1.0), (0.0, -1.0)];
+    for (cx, cy) in centres {
+        for z0 in [0.0, -0.0] {
+            p.push((if cy == 0.0 { Cmplx::new(cx, z0) } else { Cmplx::new(z0, cy) }, "branch-point"));
+        }
+        for d in [1e-3, 1e-6, 1e-9, 1e-12, 2f64.powi(-50), 2f64.powi(-52)] {
+            for k in 0..16 {
+                let t = (k as f64 + 0.5) * std::f64::consts::TAU / 16.0;
+                p.push((Cmplx::new(cx + d * t.cos(), cy + d * t.sin()), "branch-point-neighbourhood"));
+            }
+            for s in [1.0, -1.0] {
+                for z0 in [0.0, -0.0] {
+                    if cy == 0.0 {
+                        p.push((Cmplx::new(cx + s * d, z0), "branch-point-neighbourhood"));
+                        p.push((Cmplx::new(cx, s * d), "branch-point-neighbourhood"));
+                    } else {
+                        p.push((Cmplx::new(z0, cy + s * d), "branch-point-neighbourhood"));
+                        p.push((Cmplx::new(s * d, cy), "branch-point-neighbourhood"));
+                    }
+                }
+            }
+        }
+    }
+    for k in 1..=6 {
+        let c = k as f64 * std::f64::consts::FRAC_PI_2;
+        for s in [1.0, -1.0] {
+            for v in [c, f64::from_bits(c.to_bits() + 1), f64::from_bits(c.to_bits() - 1), c + 1e-9, c - 1e-9] {
+                for z0 in [0.0, -0.0] {
+                    p.push((Cmplx::new(s * v, z0), "trig-zero-or-pole"));
+                    p.push((Cmplx::new(z0, s * v), "trig-zero-or-pole"));
+                }
+                p.push((Cmplx::new(s * v, 1e-12), "trig-zero-or-pole"));
+                p.push((Cmplx::new(-1e-12, s * v), "trig-zero-or-pole"));
+            }
+        }
+    }
+    p
+}
+
+fn rand_point(rng: &mut Rng) -> (Cmplx, &'static str) {
+    let tiny = |rng: &mut Rng| 10f64.powf(-rng.range(1.0, 15.5));
+    match rng.below(9) {
+        0 | 1 => { let r = rng.logpos(1e-3, 10.0); let t = rng.range(-std::f64::consts::PI, std::f64::consts::PI); (Cmplx::new(r * t.cos(), r * t.sin()), "random-polar") }
+        2 => { let (x, y) = (rng.range(-7.0, 7.0), rng.range(-7.0, 7.0)); (Cmplx::new(x, y), "random-box") }
+        3 => {
+            let r = rng.logmag(1e-3, 10.0);
+            let e = r.abs() * tiny(rng) * if rng.bool() { 1.0 } else { -1.0 };
+            if rng.bool() { (Cmplx::new(r, e), "random-beside-real-axis") } else { (Cmplx::new(e, r), "random-beside-imag-axis") }
+        }
+        4 => {
+            let (cx, cy) = *rng.pick(&[(1.0, 0.0), (-1.0, 0.0), (0.0, 1.0), (0.0, -1.0)]);
+            let d = 10f64.powf(-rng.range(0.5, 15.5));
+            let t = rng.range(0.0, std::f64::consts::TAU);
+            (Cmplx::new(cx + d * t.cos(), cy + d * t.sin()), "random-near-branch-point")
+        }
+        5 => { let r = 1.0 + rng.sym() * tiny(rng); let t = rng.range(0.0, std::f64::consts::TAU); (Cmplx::new(r * t.cos(), r * t.sin()), "random-near-unit-circle") }
+        6 => {
+            let c = rng.int(1, 6) as f64 * std::f64::consts::FRAC_PI_2 * if rng.bool() { 1.0 } else { -1.0 };
+            let d = tiny(rng);
+            let t = rng.range(0.0, std::f64::consts::TAU);
+            if rng.bool() { (Cmplx::new(c + d * t.cos(), d * t.sin()), "random-near-trig-zero") } else { (Cmplx::new(d * t.cos(), c + d * t.sin()), "random-near-trig-zero") }
+        }
+        7 => {
+            // dyadic lattice: many points exactly on axes, on |x|=1, |y|=1, with exactly representable squares
+            let (i, j) = (rng.int(-56, 56), rng.int(-56, 56));
+            let z0 = if rng.bool() { 0.0 } else { -0.0 };
+            let f = |k: i64| if k == 0 { z0 } else { k as f64 / 8.0 };
+            (Cmplx::new(f(i), f(j)), "random-dyadic-lattice")
+        }
+        _ => {
+            // beside a cut, far out or far in: x log-uniform, absolute offsets down to 1e-12
+            let r = rng.logmag(1e-3, 10.0);
+            let e = 10f64.powf(-rng.range(6.0, 12.0)) * if rng.bool() { 1.0 } else { -1.0 };
+            if rng.bool() { (Cmplx::new(r, e), "random-beside-real-axis") } else { (Cmplx::new(e, r), "random-beside-imag-axis") }
+        }
+    }
+}
+
+fn rand_aux(rng: &mut Rng) -> Aux {
+    let mut w = [Cmplx::new(0.0, 0.0); 2];
+    for k in 0..2 {
+        w[k] = match rng.below(5) {
+            0 => Cmplx::new(rng.int(-3, 3) as f64, 0.0),
+            1 => Cmplx::new(0.0, rng.range(-3.0, 3.0)),
+            2 => Cmplx::new(rng.range(-3.0, 3.0), 0.0),
+            _ => { let r = 3.0 * rng.unit().sqrt(); let t = rng.range(0.0, std::f64::consts::TAU); let c = Cmplx::new(r * t.cos(), r * t.sin()); if c.real.hypot(c.imag) <= 3.0 { c } else { Cmplx::new(0.5 * c.real, 0.5 * c.imag) } }
+        };
+    }
+    let x = [if rng.bool() { rng.range(-3.0, 3.0) } else { *rng.pick(&X_LIST) }, rng.dyadic(12, 2)];
+    let b = loop {
+        let r = rng.logpos(1e-3, 10.0);
+        let t = rng.range(-std::f64::consts::PI, std::f64::consts::PI);
+        let b = if rng.chance(0.25) { Cmplx::new(if rng.bool() { r } else { -r }, 0.0) } else { Cmplx::new(r * t.cos(), r * t.sin()) };
+        if (r.ln()).hypot(b.imag.atan2(b.real)) >= 0.05 { break b; }
+    };
+    Aux { w, x, b }
+}
+
+const CHUNK: usize = 32;
+
+pub fn run(ctx: &Ctx) -> Report {
+    let pts = enumerated(ctx.quick());
+    let ne = ((pts.len() + CHUNK - 1) / CHUNK) as u64;
+    let nrand = ctx.vol(12_000, 160_000);
+    let stats = par_run(ctx, TAG, ne + nrand, |u, rng, st| {
+        let mut acc = Acc::new();
+        if u < ne {
+            let lo = u as usize * CHUNK;
+            let hi = (lo + CHUNK).min(pts.len());
+            for i in lo..hi {
+                let (z, class) = pts[i];
+                judge_point(st, &mut acc, class, z, &enum_aux(i));
+            }
+        } else {
+            for _ in 0..CHUNK {
+                let (z, class) = rand_point(rng);
+                let aux = rand_aux(rng);
+                judge_point(st, &mut acc, class, z, &aux);
+            }
+        }
+        acc.flush(st);
+    });
+    let mut rep = Report::new(stats,
+        "points z with 1e-3 <= |z| <= 10: a seed-independent sweep (polar grid radii x angles; both axes with all four signed-zero variants; 1e-12 and 1e-9*r on both sides of both axes, i.e. of every cut; the branch points +-1, +-i themselves and rings of radius 1e-3..2^-52 around them; multiples of pi/2 on both axes and their neighbours) plus seeded random points (log-polar, box, beside an axis down to 1e-15 relative, near branch points, near the unit circle, near zeros/poles of the trigonometric functions, dyadic lattice). At every point all 27 unary functions, abs/arg/abs_sqr/conj/Signed::abs/polar, and pow (2 exponents |w|<=3), powf (2 real exponents), log (1 base) are called and judged. A point is non-trivial unless it lies strictly inside the first-quadrant part of the open unit disc and further than 1e-3 from every branch point (the only region the library's own tests sample); distinct = distinct bit patterns of z");
+    rep.assumptions = vec![
+        "real libm functions (f64::exp, sin, atan2, asinh, ...) are accurate to a few ulp; they are the trusted base of the axis-reduction oracle and of the starting guesses of the DD Newton steps".into(),
+        "DD reference functions are implemented from the definitions (Taylor series / Newton) in this file and are self-checked in DD by F(reference) = z on a quarter of the cases; a failed self-check is a harness error (inconclusive), never a verdict".into(),
+        "exactly ON a cut both one-sided limits are accepted for the value (they are conjugates / negated conjugates), except that ln, sqrt, arg with a +0 imaginary part must return the upper side; ranges and right-inverse are demanded everywhere".into(),
+        "value envelopes: forward functions K_FWD*u*|f| (normwise); inverse functions K_INV*u*E with E the first-order rounding model of the textbook formula the library evaluates (cancellation for large |w|, sqrt-type loss next to +-1/+-i) computed from DD intermediates; checks whose envelope exceeds 1e-3 are skipped and counted; exact poles (atan/acot at +-i, atanh/acoth at +-1) are outside the non-overflowing domain".into(),
+        "principal ranges are demanded up to the same accuracy envelope (closed ranges; ln: exactly the range of atan2); a wrong branch is off by O(1)".into(),
+    ];
+    // about a fifth of what a full-volume run observes (quick ~3.3e5, thorough ~4.1e6), scaled with the profile volume factor
+    rep.min_nontrivial = (((if ctx.quick() { 60_000.0 } else { 800_000.0 }) * ctx.scale.min(1.0)) as u64).max(2_000);
+    let mut ex = J::obj();
+    ex.set("exhaustive_parts", J::s("seed-independent sweep of the grid/axes/cut sides/branch-point rings described in the rule"));
+    ex.set("enumerated_points", J::UInt(pts.len() as u64));
+    ex.set("functions", J::s("exp sin cos tan sec csc cot sinh cosh tanh sech csch coth sqrt ln asin acos atan asec acsc acot asinh acosh atanh asech acsch acoth pow powf log polar abs arg abs_sqr conj Signed::abs new"));
+    rep.extra = ex;
+    rep
 }
